@@ -58,4 +58,5 @@ def run(rep, facts, tier):
     GD.alloc_modes(rep, cfg, "C14")
     GD.check_gadget_codec(rep, facts["R"], "C14", cfg)
     prov_r(rep, cfg)
+    GD.eager_decode(rep, cfg)       # decompress_from_field is the in-circuit validity check: it must actually emit the decode constraints
     rep.floor("obligations", len(rep.obligations), 14)
